@@ -1,7 +1,7 @@
 (* C08 -- OCPP-J framing round-trips and parsing is total (value level: the array json.loads
    produced / json.dumps is given; the text level is CPython's json module, see DESIGN.md). *)
 From Coq Require Import List String Bool ZArith.
-From OV.Model Require Import Json Schema Frame FrameProofs.
+From OV.Model Require Import Json JsonText Schema Frame FrameProofs.
 Import ListNotations.
 
 Theorem C08_roundtrip :
@@ -38,3 +38,17 @@ Theorem C08_total_classified :
     end.
 Proof. exact unpack_classified. Qed.
 Print Assumptions C08_total_classified.
+
+(* the serialised text (model of json.dumps with compact separators, compared character by character
+   with the real to_json output by the correspondence) is the compact array of its parts *)
+Theorem C08_text_shape :
+  forall m, print_compact (pack_v m) =
+  match m with
+  | Call i a p => ("[" ++ join "," ["2"; print_compact i; print_compact a; print_compact p] ++ "]")%string
+  | CallResult i p _ => ("[" ++ join "," ["3"; print_compact i; print_compact p] ++ "]")%string
+  | CallError i c d x =>
+      ("[" ++ join "," ["4"; print_compact i; print_compact c; print_compact d;
+                        print_compact (match x with Some v => v | None => JNull end)] ++ "]")%string
+  end.
+Proof. exact pack_text. Qed.
+Print Assumptions C08_text_shape.
